@@ -72,6 +72,13 @@ def decPrec (x : Num) : Nat :=
   | .str _ => 512
   | _ => 53
 
+def maxU64 : Int := 18446744073709551615
+
+/-- an item of one of the two integer families -/
+def isIntItem : Item → Bool
+  | .int _ | .uint _ => true
+  | _ => false
+
 /-! ## Refinements -/
 
 /-- `r'` admits everything `r` admits (for unknown values of type `t`) -/
@@ -148,6 +155,44 @@ def ApproxZip : List Ty → List Payload → List Payload → Prop
      | _, _ => False)
 end
 
+/-! `RawEq t p' p`: `Approx` for a wholly known original — the same shape and equal
+leaves (numbers: `numBack`), no unknown anywhere: what `Value.RawEquals` demands,
+with the property's own reading of "equal" for numbers. -/
+mutual
+def RawEq : Ty → Payload → Payload → Prop
+  | _, .null, p => (match p with | .null => True | _ => False)
+  | t, .b x, p => (match t, p with | .bool, .b y => x = y | _, _ => False)
+  | t, .n y, p => (match t, p with | .number, .n x => numBack y x | _, _ => False)
+  | t, .s x, p => (match t, p with | .string, .s y => x = y | _, _ => False)
+  | t, .seq xs, p =>
+    (match t, p with
+     | .list e, .seq ys => RawEqAll e xs ys
+     | .tuple es, .seq ys => RawEqZip es xs ys
+     | _, _ => False)
+  | t, .sset _ xs, p =>
+    (match t, p with
+     | .set e, .sset _ ys => RawEqAll e xs ys
+     | _, _ => False)
+  | t, .smap ks xs, p =>
+    (match t, p with
+     | .map e, .smap ls ys => ks = ls ∧ RawEqAll e xs ys
+     | .object _ ts _, .smap ls ys => ks = ls ∧ RawEqZip ts xs ys
+     | _, _ => False)
+  | _, .unk _, _ => False
+  | _, .caps, _ => False
+  | _, .marked _ _, _ => False
+  | _, .bad _, _ => False
+def RawEqAll : Ty → List Payload → List Payload → Prop
+  | _, [], ys => ys = []
+  | e, x :: xs, ys => (match ys with | y :: ys' => RawEq e x y ∧ RawEqAll e xs ys' | [] => False)
+def RawEqZip : List Ty → List Payload → List Payload → Prop
+  | ts, [], ys => ys = [] ∧ ts = []
+  | ts, x :: xs, ys =>
+    (match ts, ys with
+     | t :: ts', y :: ys' => RawEq t x y ∧ RawEqZip ts' xs ys'
+     | _, _ => False)
+end
+
 /-- value level: the same type, and an acceptable payload -/
 def ApproxV (v' v : Value) : Prop := v'.ty = v.ty ∧ Approx v.ty v'.v v.v
 
@@ -215,6 +260,62 @@ def Fits (E : Ext) (t : Ty) (v : Value) : Bool :=
   t.wf && v.ty.wf &&
   (if t.isDyn && !v.ty.isDyn then goodTy E v.ty && fitsP E v.ty v.ty v.v else fitsP E t v.ty v.v)
 
+/-! ## The full-strength hypotheses
+
+`wfP E vt p`: `p` is a well-formed, unmarked, capsule-free payload for the type
+`vt` (what every value built through cty's constructors satisfies; normalised
+strings and keys, a refinement of the right kind that is neither "known null"
+nor collapsible, with ordered bounds).  It does NOT exclude the inputs that
+`Fits` excludes; the full statement `C16.RoundtripCovers` over it is false of the
+code as it exists. -/
+
+def rfnWF (E : Ext) (vt : Ty) (r : Rfn) : Bool :=
+  kindOk vt r && r.nullness != .t &&
+  (match r with
+   | .num _ lo hi =>
+     (match lo, hi with
+      | some l, some h => decide (Num.cmp l.v h.v < 0)
+      | _, _ => true)
+   | .str _ p => E.norm p == p
+   | .coll n lo hi =>
+     decide (0 ≤ lo) && decide (lo ≤ hi) && decide (hi ≤ Refine.maxInt) && (n != .f || collStaysUnknown vt lo hi)
+   | _ => true)
+
+mutual
+def wfP (E : Ext) (vt : Ty) (p : Payload) : Bool :=
+  match p with
+  | .null => true
+  | .unk r => vt.isDyn || rfnWF E vt r
+  | .b _ => vt.isBool
+  | .n _ => vt.isNumber
+  | .s s => vt.isString && E.norm s == s
+  | .seq vs =>
+    (match vt with
+     | .list ve => wfAll E ve vs
+     | .tuple ves => wfZip E ves vs
+     | _ => false)
+  | .sset _ vs =>
+    (match vt with
+     | .set ve => wfAll E ve vs
+     | _ => false)
+  | .smap ks vs =>
+    (match vt with
+     | .map ve => keysOK E ks && ks.length == vs.length && wfAll E ve vs
+     | .object ns ts os => keysOK E ks && ns == ks && !(os.any id) && wfZip E ts vs
+     | _ => false)
+  | _ => false
+def wfAll (E : Ext) (ve : Ty) : List Payload → Bool
+  | [] => true
+  | p :: ps => wfP E ve p && wfAll E ve ps
+def wfZip (E : Ext) : List Ty → List Payload → Bool
+  | [], [] => true
+  | t :: ts, p :: ps => wfP E t p && wfZip E ts ps
+  | _, _ => false
+end
+
+/-- a well-formed unmarked capsule-free value -/
+def wfValue (E : Ext) (v : Value) : Bool := goodTy E v.ty && wfP E v.ty v.v
+
 /-! ## Set members -/
 
 mutual
@@ -234,12 +335,16 @@ def setNodesZip : List Ty → List Payload → List (Ty × List Payload)
   | _, _ => []
 end
 
-/-- The law assumed of `cty.SetVal` (hashing and de-duplication are property C03's):
-rebuilding a set of `v` from acceptable decodings of its members, in iteration
-order, gives acceptable decodings of its members, in order. -/
-def SetsRebuild (E : Ext) (v : Value) : Prop :=
-  ∀ n ∈ setNodes v.ty v.v, ∀ ps' : List Payload, ApproxAll n.1 ps' n.2 →
+/-- The law assumed of `cty.SetVal` at one set node (element type, members): rebuilding
+the set from acceptable decodings of its members, in iteration order, gives
+acceptable decodings of its members, in order. -/
+def SetLawAt (E : Ext) (n : Ty × List Payload) : Prop :=
+  ∀ ps' : List Payload, ApproxAll n.1 ps' n.2 →
     ∃ ids ps'', E.setOf n.1 ps' = .ok (.sset ids ps'') ∧ ApproxAll n.1 ps'' n.2
+
+/-- … at every set node of `v` (hashing and de-duplication are property C03's; the
+hypothesis is vacuous for a value without sets) -/
+def SetsRebuild (E : Ext) (v : Value) : Prop := ∀ n ∈ setNodes v.ty v.v, SetLawAt E n
 
 end Msgpack
 end CtyModel
